@@ -139,6 +139,8 @@ def gen_rule(rng, n, idx, keys, zero=False, kinds=None):
         filt = rng.randrange(n)
     elif f < 0.5:
         filt = tuple(rng.sample(range(n), rng.randint(1, min(n, 3))))
+    elif f < 0.58:
+        filt = ()  # a rule restricted to NO qubit: it never applies (empty intersection with every gate)
     nfq = None if filt is None else (1 if isinstance(filt, int) else len(filt))
     for _ in range(rng.choice([0, 0, 0, 1, 1, 2])):
         code = rng.choice([0, 0, 1, 2, 3, 4, 5])
@@ -232,7 +234,26 @@ def gen_rule(rng, n, idx, keys, zero=False, kinds=None):
         rule["err"] = f"CustomError(gates.DepolarizingChannel(({_q(qs)},), {p!r}))"
     if len(rule["conds"]) == 1 and rng.random() < 0.5:
         rule["single"] = True  # pass the callable itself, not a list
+    rule["filt_src"] = filt_source(rng, rule["filt"])
     return rule
+
+
+def filt_source(rng, filt):
+    """the `qubits=` argument in one of the collection forms `NoiseModel.add` is given in practice: a single
+    int, a tuple, a list, a set / frozenset, a range (contiguous ascending ids); the EMPTY collection in
+    every form.  They all denote the same set of qubits."""
+    if filt is None:
+        return None
+    if isinstance(filt, int):
+        return str(filt)
+    fl = list(filt)
+    if not fl:
+        return rng.choice(["()", "[]", "range(0)", "set()", "frozenset()", "range(2, 2)"])
+    # (numpy integers are not generated: qibo's gates themselves reject numpy integers as qubit ids)
+    forms = [f"({_q(fl)},)", f"({_q(fl)},)", f"[{_q(fl)}]", "{" + _q(fl) + "}", "frozenset({" + _q(fl) + "})"]
+    if fl == list(range(fl[0], fl[0] + len(fl))):
+        forms += [f"range({fl[0]}, {fl[0] + len(fl)})"] * 2
+    return rng.choice(forms)
 
 
 def rule_add_src(rule):
@@ -241,7 +262,7 @@ def rule_add_src(rule):
         parts.append(f"gates.{rule['key']}")
     if rule["filt"] is not None:
         f = rule["filt"]
-        parts.append(f"qubits={f if isinstance(f, int) else '(' + _q(f) + ',)'}")
+        parts.append(f"qubits={rule.get('filt_src') or (f if isinstance(f, int) else '(' + _q(f) + ',)')}")
     if rule["conds"]:
         cs = [cond_src(c, a) for c, a in rule["conds"]]
         parts.append("conditions=" + (f"({cs[0]})" if rule["single"] else "[" + ", ".join(cs) + "]"))
@@ -1634,14 +1655,14 @@ def run(ctx):
     build_and_audit(ctx, PROP, MODULES, THEOREMS)
     import sys
 
-    from props import C19_ibmq
+    from props import C19_collapse, C19_ibmq
 
     nb = qgates.np_backend()
     suites = [("apply", lambda: apply_suite(ctx, nb)), ("ibmq", lambda: ibmq_suite(ctx, nb)),
               ("ibmq_model", lambda: C19_ibmq.ibmq_model_suite(ctx, nb, sys.modules[__name__])), ("pauli_map", lambda: pauli_suite(ctx, nb)),
               ("zero_strength", lambda: zero_suite(ctx, nb)), ("exec", lambda: exec_suite(ctx)), ("trajectory", lambda: trajectory_suite(ctx)),
               ("full_weight", lambda: full_weight_suite(ctx)), ("history", lambda: history_suite(ctx, nb)),
-              ("repeated", lambda: repeated_suite(ctx))]
+              ("repeated", lambda: repeated_suite(ctx)), ("collapse_tree", lambda: C19_collapse.collapse_suite(ctx, sys.modules[__name__]))]
     for name, suite in suites:
         try:
             suite()
@@ -1658,7 +1679,9 @@ def run(ctx):
         "model, exact on class / qubits / coefficients / operator matrices; no-mutation and second-call checks; zero-strength models; "
         "exact dyadic execution of unitary-mixture queues (forced tapes, density matrix, trajectory mean) vs the Lean model; all "
         "trajectories of real noisy circuits vs the density-matrix run to 1e-10; execute_circuit_repeated with a forced tape (exact) "
-        "and seeded (statistical); IBMQNoiseModel.from_dict: the Lean transliteration of the rule generation (fromDict) + attachNoise and the "
+        "and seeded (statistical); circuits with collapsing measurements before / between / after noise channels: the whole sampling "
+        "tree of a shot (measurement outcomes and channel branches forced) vs one repeated execution with all leaves forced and vs the "
+        "outcome distribution of the density-matrix run; IBMQNoiseModel.from_dict: the Lean transliteration of the rule generation (fromDict) + attachNoise and the "
         "documented per-gate queue (ibmqSpec, proved equal) vs the real from_dict(...).apply on generated dictionaries in every documented "
         "form (global number / per-qubit dict per entry, key orders, pair keys in both orientations, readout value forms, raising corners)")
     ctx.assumptions.append("qubit order inside channels created by a rule WITH a qubit filter is not compared (it comes from a Python set); "
